@@ -7,6 +7,7 @@ use std::collections::BTreeMap;
 pub const XML_HEAD: &str = r#"<RegisterDescription ModelName="VerifModel" VendorName="Verif" StandardNameSpace="None" SchemaMajorVersion="1" SchemaMinorVersion="1" SchemaSubMinorVersion="0" MajorVersion="1" MinorVersion="0" SubMinorVersion="0" ProductGuid="01234567-0123-0123-0123-0123456789ab" VersionGuid="76543210-3210-3210-3210-ba9876543210" xmlns="http://www.genicam.org/GenApi/Version_1_1">
 <Port Name="Device"></Port>
 <Port Name="ChunkPort"><ChunkID>12ab</ChunkID></Port>
+<Port Name="SwapPort"><SwapEndianess>Yes</SwapEndianess></Port>
 "#;
 pub const XML_TAIL: &str = "</RegisterDescription>\n";
 
@@ -40,11 +41,39 @@ pub struct RecDevice {
     pub log: Vec<Access>,
     pub refuse: Vec<u64>,
     pub attempts: u64,
+    /// one-shot fault consumed by the NEXT write_mem (cached, implementation-only passes)
+    pub next_write_fault: Option<WriteFault>,
+    /// one-shot fault consumed by the NEXT read_mem
+    pub next_read_fault: Option<ReadFault>,
+    /// number of one-shot faults that fired
+    pub faults_fired: u64,
+}
+
+/// How a faulty device answers one write: all report an error to the caller.
+#[derive(Clone, Copy, Debug, PartialEq, Eq)]
+pub enum WriteFault {
+    /// nothing applied
+    Refuse,
+    /// the whole write is applied, the acknowledge is lost
+    LostAck,
+    /// only the first `k` bytes are applied
+    Partial(usize),
+}
+
+/// How a faulty device answers one read: all report an error to the caller.
+#[derive(Clone, Copy, Debug, PartialEq, Eq)]
+pub enum ReadFault {
+    /// buffer untouched
+    Refuse,
+    /// the buffer is filled with the device bytes, then the error is reported
+    FilledThenFail,
+    /// the buffer is filled with garbage, then the error is reported
+    GarbageThenFail,
 }
 
 impl RecDevice {
     pub fn new(base: i64, img: Vec<u8>, refuse: Vec<u64>) -> Self {
-        RecDevice { base, img, outside: BTreeMap::new(), log: vec![], refuse, attempts: 0 }
+        RecDevice { base, img, outside: BTreeMap::new(), log: vec![], refuse, attempts: 0, next_write_fault: None, next_read_fault: None, faults_fired: 0 }
     }
     fn get(&self, a: i128) -> u8 {
         let off = a - self.base as i128;
@@ -91,6 +120,23 @@ impl Device for RecDevice {
         if self.refuse.contains(&n) {
             return Err("device refused the read".into());
         }
+        if let Some(f) = self.next_read_fault.take() {
+            self.faults_fired += 1;
+            match f {
+                ReadFault::Refuse => {}
+                ReadFault::FilledThenFail => {
+                    for (i, b) in buf.iter_mut().enumerate() {
+                        *b = self.get(address as i128 + i as i128);
+                    }
+                }
+                ReadFault::GarbageThenFail => {
+                    for (i, b) in buf.iter_mut().enumerate() {
+                        *b = 0xA5 ^ (i as u8).wrapping_mul(37);
+                    }
+                }
+            }
+            return Err("device read fault".into());
+        }
         for (i, b) in buf.iter_mut().enumerate() {
             *b = self.get(address as i128 + i as i128);
         }
@@ -104,6 +150,18 @@ impl Device for RecDevice {
         if self.refuse.contains(&n) {
             return Err("device refused the write".into());
         }
+        if let Some(f) = self.next_write_fault.take() {
+            self.faults_fired += 1;
+            let k = match f { WriteFault::Refuse => 0, WriteFault::LostAck => data.len(), WriteFault::Partial(k) => k.min(data.len()) };
+            for (i, b) in data.iter().take(k).enumerate() {
+                self.set(address as i128 + i as i128, *b);
+            }
+            if k > 0 {
+                // what reached the device is logged (it is a performed, if unacknowledged, write)
+                self.log.push(Access { write: true, addr: address, len: k, bytes: data[..k].to_vec() });
+            }
+            return Err("device write fault".into());
+        }
         for (i, b) in data.iter().enumerate() {
             self.set(address as i128 + i as i128, *b);
         }
@@ -112,7 +170,14 @@ impl Device for RecDevice {
     }
 }
 
-/// Canonical answer: result, access log, final window image.
+/// Canonical answer: result, access log, final window image.  For a call that ends in an
+/// error the property only says "no device write": the exact read log is NOT compared there
+/// (a stronger refusal that fails before touching the device is as good), only the number of
+/// write entries and the image.  Successful calls and panics keep the exact log (footprint).
 pub fn answer(res: &str, dev: &RecDevice) -> String {
-    format!("{res};{};{}", dev.log_str(), camharness::hex(&dev.img))
+    if res.starts_with("err") {
+        format!("{res};W={};{}", dev.writes(), camharness::hex(&dev.img))
+    } else {
+        format!("{res};{};{}", dev.log_str(), camharness::hex(&dev.img))
+    }
 }
